@@ -11,7 +11,8 @@ Record c09obs := mkC09 {
   o_reopen : result dialect;               (* FeatureDB(path).dialect *)
   o_first_feature : result dialect;        (* dialect carried by the first feature yielded *)
   o_derived : Z;
-  o_meta : result str }.                   (* the JSON text in the meta table's dialect column *)                         (* number of stored features minus number of lines: > 0 iff the GTF importer ran *)
+  o_meta : result str;                     (* the JSON text in the meta table's dialect column *)
+  o_updated : result dialect }.            (* FeatureDB(path).dialect after an update() with differently written lines *)                         (* number of stored features minus number of lines: > 0 iff the GTF importer ran *)
 
 Inductive case :=
 | CVote (attr_cols : list str)             (* the attribute column of every feature line, in file order *)
@@ -43,7 +44,7 @@ Definition verdict (c : case) : Z :=
     let lines_ok := list_eqb dialect_eqb (o_line_dialects o) (map v_dialect voters) in
     let iter_ok := rdialect_eqb (o_iter o) chosen && rdialect_eqb (o_iter_feats o) chosen
                    && rdialect_eqb (o_first_feature o) chosen in
-    let db_ok := rdialect_eqb (o_db o) chosen && rdialect_eqb (o_reopen o) chosen
+    let db_ok := rdialect_eqb (o_db o) chosen && rdialect_eqb (o_reopen o) chosen && rdialect_eqb (o_updated o) chosen
                  (* the stored text decodes (Model/Json.v) to the chosen dialect; for an inferred dialect it is the model's text *)
                  && match o_meta o with
                     | Ok t => match loads_dialect t with Some D => dialect_eqb D chosen | None => false end
